@@ -4,6 +4,7 @@ import (
 	"bytes"
 	"encoding/binary"
 	"fmt"
+	"hash/fnv"
 	"io"
 	"runtime/metrics"
 	"sort"
@@ -817,11 +818,16 @@ func c02Check(c *explore.Ctx, seed *c02Seed, b []byte, what func() string) {
 	if alloc > uint64(c02A0+c02A1*len(b)) {
 		c.Fail("C02.alloc", seed.dec+" / "+stage, "%s (%s) allocates %d bytes (bound %d + %d per byte) on a %d-byte input: %s", seed.dec, stage, alloc, c02A0, c02A1, len(b), what())
 	}
+	// a case is the (decoder, input) pair; the behaviours (accepted / class of error) are counted separately
+	h := fnv.New64a()
+	h.Write(b)
 	if err == nil {
 		c.Nontrivial()
-		c.Outcome(seed.dec, "accepted")
+		c.Outcome(seed.dec, "accepted", h.Sum64())
+		c.Count("behaviour: "+seed.dec+" accepts", 1)
 	} else {
-		c.Outcome(seed.dec, errClass(err))
+		c.Outcome(seed.dec, "rejected", h.Sum64())
+		c.Count("behaviour: "+seed.dec+" rejects", 1)
 	}
 }
 
